@@ -46,7 +46,7 @@ def mon (st : St) (op : List String) (outs : List (List String)) : St × List St
     -- bookkeeping
     let st1 : St := match op with
       | ["task", id, pool, _] => { st with tasks := st.tasks ++ [id], budget := bump st.budget pool 1, hadTask := true }
-      | ["poolclose", pool] => { st with budget := bump st.budget pool 1 }
+      | "poolclose" :: pool :: _ => { st with budget := bump st.budget pool 1 }
       | _ => st
     let newDials := outs.filterMap fun o => match o with
       | ["factory", "dial", p, "->", _] => some p | _ => none
